@@ -5,7 +5,7 @@ patch=$1; budget=$2; shift 2
 cd /repo || exit 2
 if ! git diff --quiet; then echo "/repo has uncommitted changes"; exit 2; fi
 git apply "$patch" || { echo "patch does not apply"; exit 2; }
-trap 'git -C /repo checkout -- . ; git -C /repo clean -fdq -- . >/dev/null 2>&1' EXIT
+trap 'git -C /repo checkout -- . ; git -C /repo clean -fdq -- . >/dev/null 2>&1; git -C /verif checkout -- evidence' EXIT
 cd /verif
 for p in "$@"; do
   out=$(SIM_BUDGET_SEC=$budget ./run.sh $p quick 2>&1)
